@@ -29,23 +29,23 @@ def check_const(ctx, m, g, kind):
     ctx.tag(f"parts.{len(parts)}")
 
 
-def check_sorted(ctx, m, g, kind):
+def check_sorted(ctx, m, g, kind, rule="C05.b-sorted"):
     key = [m.crate_key, "::".join(m.modpath + [m.name]), kind]
     try:
         lst = g.messages_list(kind)
     except G.Unrecognised as e:
-        ctx.unrecognised("C05.b-sorted", key, C.where(m), str(e))
+        ctx.unrecognised(rule, key, C.where(m), str(e))
         return
     if lst is None:
         return
-    ctx.inst("C05.b-sorted", distinct=(m.key, kind))
+    ctx.inst(rule, distinct=(m.key, kind))
     b = [x.encode() for x in lst]
     if any(not (b[i] < b[i + 1]) for i in range(len(b) - 1)):
-        ctx.violation("C05.b-sorted", key + ["order"], C.where(m, g.messages_fn(kind)), "strictly increasing (byte order), duplicate-free", lst, STATEMENT,
+        ctx.violation(rule, key + ["order"], C.where(m, g.messages_fn(kind)), "strictly increasing (byte order), duplicate-free", lst, STATEMENT,
                       "EnumMessage::emit (msgs.sort())")
     f = g.messages_fn(kind)
     if not f.get("const"):
-        ctx.violation("C05.b-sorted", key + ["const-fn"], C.where(m, f), "pub const fn (usable in the const overlap check)", "non-const fn", STATEMENT)
+        ctx.violation(rule, key + ["const-fn"], C.where(m, f), "pub const fn (usable in the const overlap check)", "non-const fn", STATEMENT)
     if len(lst) >= 2:
         ctx.tag("list.len>=2")
         if lst != [h.fn for h in m.handlers[kind]]:
